@@ -96,6 +96,8 @@ def closure_id_of(node):
     if node is None:
         return None
     node = strip(node)
+    while node[0] == "cast":
+        node = strip(node[1])       # a closure coerced / re-borrowed on its way to the adaptor
     if node[0] == "agg" and node[1].startswith("closure:"):
         return node[1][len("closure:"):]
     if node[0] == "kx":
@@ -111,9 +113,16 @@ def fn_item_of(node):
     return None
 
 
+def _uncast(node):
+    node = strip(node)
+    while node[0] == "cast":
+        node = strip(node[1])
+    return node
+
+
 def closure_env(node):
     """upvar index -> creator-side node, for a closure aggregate node"""
-    node = strip(node)
+    node = _uncast(node)
     if node[0] == "agg" and node[1].startswith("closure:"):
         return {i: strip(o) for i, o in enumerate(node[3])}
     return {}
@@ -224,6 +233,7 @@ class Scope:
     def __init__(self, prog, fn, env=None, elem=None, parent=None, via=None, elem_arg=2, argmap=None):
         self.prog = prog
         self.argmap = argmap or {}     # parameter local -> caller's argument node (inlined helper functions)
+        self.ctx_conds = []            # conditions that hold whenever this body runs (at the site that creates the closure / calls the helper)
         self.fn = fn
         self.body = fn.body
         self.eb = ExprBuilder(self.body)
@@ -284,8 +294,11 @@ class Scope:
 
     def conditions(self, bb):
         """dominating conditions of block bb in this scope, plus those of the enclosing scopes' creation sites"""
-        out = [(self, d, self._rw(n), tk) for (d, n, tk) in dominating_conditions(self.body, bb, self.eb)]
+        out = list(self.ctx_conds) + [(self, d, self._rw(n), tk) for (d, n, tk) in dominating_conditions(self.body, bb, self.eb)]
         return out
+
+    def own_conditions(self, bb):
+        return [(self, d, self._rw(n), tk) for (d, n, tk) in dominating_conditions(self.body, bb, self.eb)]
 
     def children(self):
         """scopes of closures created in this body and passed to a call"""
@@ -322,7 +335,14 @@ class Scope:
                         from .exprs import mkproj
                         elem = mkproj(strip(recv), ("@Ok", ".0"))
                         via = (sc, None)
-                out.append((b, t, Scope(self.prog, self.prog.fns[cid], env, elem, self, via, elem_arg)))
+                ch_ = Scope(self.prog, self.prog.fns[cid], env, elem, self, via, elem_arg)
+                ch_.ctx_conds = self._site_conds(b)
+                # data-flow conditions: `cond.then(|| ..)` runs its closure iff cond; `opt.map(|x| ..)` / and_then / inspect iff opt is Some
+                if ai >= 1 and sc in ("then", "then_some") and "bool" in nm:
+                    ch_.ctx_conds = ch_.ctx_conds + [(self, None, self.operand(t["args"][0]), "1")]
+                elif ai >= 1 and "option::Option" in nm and sc in ("map", "and_then", "inspect", "filter", "is_some_and", "map_or", "map_or_else") and ai == len(t["args"]) - 1:
+                    ch_.ctx_conds = ch_.ctx_conds + [(self, None, ("discr", self.operand(t["args"][0])), "1")]
+                out.append((b, t, ch_))
         # closures bound to a local (`let f = |x| ..; f(a)`) are not arguments of any call: they are scopes of this body all the same
         passed = {ch.fn.id for (_, _, ch) in out}
         for b, i, s in self.body.statements():
@@ -335,6 +355,22 @@ class Scope:
                 passed.add(cid)
                 out.append((b, None, Scope(self.prog, self.prog.fns[cid], env, None, self, ("local", None), 2)))
         return out
+
+    def _site_conds(self, b):
+        """conditions that hold at block b of this body, except loop exits and `?` (they say nothing about the data being processed)"""
+        out = list(self.ctx_conds)
+        for (sc_, d, n, tk) in self.own_conditions(b):
+            n_ = strip(n)
+            if n_[0] == "discr" and ("next(" in show(n_) or "branch(" in show(n_)):
+                continue
+            out.append((sc_, d, n, tk))
+        return out
+
+    def local_scopes(self):
+        """this body and its closures only (for callers that enumerate every function of a module themselves)"""
+        yield self
+        for (_, _, ch) in self.children():
+            yield from ch.local_scopes()
 
     def all_scopes(self, _depth=0, _seen=None):
         """this body, its closures, and (interprocedurally) the private helper functions of the same module it calls, each instantiated
@@ -351,12 +387,35 @@ class Scope:
             if not c:
                 continue
             fn = self.prog.fns.get(c.get("rid") or c["id"])
-            if fn is None or fn.kind != "fn" or fn.raw.get("pub") or fn.id in _seen or fn.body.argc != len(t["args"]):
+            if fn is None or fn.kind not in ("fn", "assocfn") or fn.raw.get("pub") or fn.id in _seen or fn.body.argc != len(t["args"]):
                 continue
-            if fn.path.rsplit("::", 1)[0] != mod:
+            if fn.raw.get("impl_trait") or fn.raw.get("impl_derived"):
+                continue
+            if not same_module(fn.path, self.prog.root_of(self.fn).path):
                 continue
             hsc = Scope(self.prog, fn, argmap={i + 1: self.operand(a) for i, a in enumerate(t["args"])}, parent=None, via=("helper", None))
+            hsc.ctx_conds = self._site_conds(b)
             yield from hsc.all_scopes(_depth + 1, _seen | {fn.id})
+
+
+def module_of(path):
+    """module part of a pretty function path: `a::b::<impl T>::f`, `a::b::T::f`, `a::<b::T as Tr>::f`, `a::b::f` -> `a::b`"""
+    p = path.split("::{closure")[0]
+    if "::<impl " in p:
+        return p.split("::<impl ")[0]
+    if "::<" in p:
+        head, rest = p.split("::<", 1)
+        inner = rest.split(" as ")[0].split(">")[0]
+        inner_mod = inner.rsplit("::", 1)[0] if "::" in inner else ""
+        return head + ("::" + inner_mod if inner_mod else "")
+    parts = p.split("::")
+    if len(parts) >= 3 and parts[-2][:1].isupper():
+        return "::".join(parts[:-2])
+    return "::".join(parts[:-1])
+
+
+def same_module(a, b):
+    return module_of(a) == module_of(b)
 
 
 # --------------------------------------------------------------------------- element provenance (collections / iterator chains)
@@ -409,6 +468,9 @@ def elem_prov(prog, node, depth=0):
             return {"(index)"} | elem_prov(prog, n[2][0], depth + 1)
         if nm == "zip" and len(n[2]) == 2:
             return elem_prov(prog, n[2][0], depth + 1) | elem_prov(prog, n[2][1], depth + 1)
+        inl = inline_helper(prog, n) if prog is not None else None
+        if inl is not None:
+            return elem_prov(prog, inl, depth + 1)
         raise UnknownTransfer("unmodelled collection transfer `%s`" % nm)
     if n[0] == "agg":
         out = set()
@@ -534,3 +596,37 @@ def scope_instances(prog, root_fn, follow, maxdepth=4):
                 rec(hsc, ctx_conds + here, depth + 1, chain + [fn.path.split("::")[-1]])
     rec(Scope(prog, root_fn), [], 0, [root_fn.path.split("::")[-1]])
     return out
+
+
+def beta(prog, node, depth=0):
+    """inline calls of closure *values* (`id_of(item)` where id_of is bound to a closure aggregate): Fn::call(closure, (args..)) -> the
+    closure's returned expression with its parameters bound.  Other nodes are rebuilt with their children reduced."""
+    if depth > 6:
+        return node
+    n = node
+    k = n[0]
+    if k == "call":
+        args = tuple(beta(prog, a, depth + 1) for a in n[2])
+        n = ("call", n[1], args, n[3])
+        sc_ = short_callee(n[1])
+        if sc_ in ("call", "call_mut", "call_once") and ("ops::Fn" in n[1] or "function::Fn" in n[1]) and len(args) == 2:
+            clo = strip(args[0])
+            cid = closure_id_of(clo)
+            tup = strip(args[1])
+            if cid in prog.fns and tup[0] == "agg":
+                cf = prog.fns[cid]
+                rns = returned_nodes(cf.body)
+                if len(rns) == 1:
+                    csc = Scope(prog, cf, closure_env(clo), None, None, argmap={i + 2: a for i, a in enumerate(tup[3])})
+                    return beta(prog, csc._rw(rns[0][1]), depth + 1)
+        return n
+    if k == "proj":
+        from .exprs import mkproj
+        return mkproj(beta(prog, n[1], depth + 1), n[2])
+    if k == "bin":
+        return ("bin", n[1], beta(prog, n[2], depth + 1), beta(prog, n[3], depth + 1))
+    if k == "un":
+        return ("un", n[1], beta(prog, n[2], depth + 1))
+    if k == "agg" and not n[1].startswith("closure:"):
+        return ("agg", n[1], n[2], tuple(beta(prog, a, depth + 1) for a in n[3]))
+    return n
